@@ -6,6 +6,8 @@ import (
 	"go/token"
 	"go/types"
 	"strings"
+
+	"golang.org/x/tools/go/cfg"
 )
 
 func init() {
@@ -21,6 +23,8 @@ func init() {
 	ruleText["R15.2"] = "every append to the start list built by (*Interpreter).cfg is of the form list = append(list, n) under a test of the function name against \"init\""
 	ruleText["R15.3"] = "in importSrc, the test of Interpreter.srcPkg[importPath] with its early return dominates every io/fs call and every run"
 	ruleText["R15.5"] = "in getVarDependencies the kind of an identifier's parent node is tested only against selectorExpr (and keyValueExpr only together with a struct-literal test); no other parent kind makes an identifier be ignored"
+	ruleText["R15.6"] = "in genGlobalVarDecl, from the statement appending a variable to the ordered list the head of the innermost enclosing loop is not reachable without leaving that loop: the earliest ready variable is taken first, then the scan restarts"
+	ruleText["R15.7"] = "for every case of gta's switch over node kinds that creates variable symbols (directly or in a directly called in-package function), each &symbol{kind: varSym} literal has node and global keys, or the case assigns the node and global fields afterwards"
 	ruleText["R15.4"] = "the function collecting the dependencies of a package variable handles function symbols (refers to funcSym): dependencies that pass through function bodies are followed"
 }
 
@@ -35,6 +39,8 @@ func runC15(c *Config, r *Report) {
 	c15R3(ic, r, "R15.3")
 	c15R4(ic, r)
 	c15R5(ic, r)
+	c15R6(ic, r)
+	c15R7(ic, r)
 }
 
 // startListVar returns the local variable holding the start list in fi: the one appended
@@ -435,6 +441,40 @@ func c15R4(ic *IC, r *Report) {
 			return true
 		})
 	}
+	// methods: the collector must resolve a selected name to an interpreted method somewhere
+	// (a method of itype returning a *node, or the itype.method field); an unconditional skip of
+	// selected names means method bodies are never followed.
+	methodFld := ic.field("itype", "method")
+	resolvesMethods := false
+	for f := range seen {
+		d := ic.G.Funcs[f]
+		if d == nil || d.Decl.Body == nil {
+			continue
+		}
+		ast.Inspect(d.Decl.Body, func(n ast.Node) bool {
+			switch x := n.(type) {
+			case *ast.Ident:
+				// the action cfg gives to a selector resolved to an interpreted method
+				if c, ok := ic.Info.Uses[x].(*types.Const); ok && c.Name() == "aGetMethod" {
+					resolvesMethods = true
+				}
+			case *ast.SelectorExpr:
+				if v := selField(ic.Info, x); v != nil && v == methodFld {
+					resolvesMethods = true
+				}
+			case *ast.CallExpr:
+				if g, ok := calleeOf(ic.Info, x).(*types.Func); ok && g.Pkg() == ic.Pk.Types {
+					sig := g.Type().(*types.Signature)
+					if sig.Recv() != nil && isNamedPtr(sig.Recv().Type(), "itype") && sig.Results().Len() >= 1 && isNamedPtr(sig.Results().At(0).Type(), "node") {
+						resolvesMethods = true
+					}
+				}
+			}
+			return true
+		})
+	}
+	r.Check(resolvesMethods, "R15.4", collector.Name()+"/follows-methods", ic.pos(ic.G.Funcs[collector].Decl.Pos()), "selected names are resolved to interpreted methods by the dependency collector",
+		"the dependency collector "+collector.Name()+" never resolves a selected name to a method (no use of the aGetMethod action, of itype.method or of a method lookup returning the method's node): a variable initialised by a method call v.m() whose body reads another package variable is not ordered after that variable")
 	r.Check(mentions, "R15.4", collector.Name()+"/follows-functions", ic.pos(ic.G.Funcs[collector].Decl.Pos()), "function symbols are handled by the dependency collector",
 		"the dependency collector "+collector.Name()+" never considers function symbols (no reference to funcSym): a variable initialised by a call f() whose body reads another package variable is not ordered after that variable")
 }
@@ -513,5 +553,236 @@ func c15R5(ic *IC, r *Report) {
 		ok := k == "selectorExpr" || (k == "keyValueExpr" && mentionsStruct)
 		r.Check(ok, "R15.5", "getVarDependencies/skip:"+k, ic.pos(kinds[k]), "identifiers are ignored by parent kind only where they cannot refer to a variable",
 			"the dependency collector treats identifiers differently when their parent node is a "+k+": an identifier in that position (for instance the key of a map literal, m = map[K]V{k: 1}) does refer to a package variable, which is then not initialised before its user")
+	}
+}
+
+// c15R6: "declaration order refined by dependencies" means: repeatedly take the earliest
+// declared variable that is ready (Go spec, Package initialization). After a variable has
+// been selected the scan must therefore restart from the first pending variable; a scan that
+// goes on with the variables declared later postpones an earlier variable that has just
+// become ready (var a = c; var b = ..; var c = ..; var d = ..  must give b c a d, not b c d a).
+// Decided on the flow graph of the ordering function: from the statement that appends to the
+// ordered list, the head of the innermost enclosing loop is not reachable without leaving
+// that loop.
+func c15R6(ic *IC, r *Report) {
+	fi := ic.fn(r, "genGlobalVarDecl")
+	if fi == nil {
+		return
+	}
+	childFld := ic.field("node", "child")
+	// the appends to the ordered list: X.child = append(X.child, n)
+	var sels []*ast.AssignStmt
+	ast.Inspect(fi.Decl.Body, func(n ast.Node) bool {
+		as, ok := n.(*ast.AssignStmt)
+		if !ok || len(as.Lhs) != 1 || len(as.Rhs) != 1 || selField(ic.Info, as.Lhs[0]) != childFld {
+			return true
+		}
+		if c, ok := unparen(as.Rhs[0]).(*ast.CallExpr); ok {
+			if id, ok := c.Fun.(*ast.Ident); ok && id.Name == "append" {
+				sels = append(sels, as)
+			}
+		}
+		return true
+	})
+	if len(sels) == 0 {
+		r.Errorf("R15.6: the statement appending a variable to the ordered list (X.child = append(X.child, n)) was not found in genGlobalVarDecl")
+		return
+	}
+	g := cfg.New(fi.Decl.Body, func(c *ast.CallExpr) bool { return !noReturn(ic.Info, c) })
+	var bad []string
+	anyLoop := false
+	for _, sel := range sels {
+		// the scan: the innermost enclosing loop that ranges over the candidate variables
+		var loop ast.Stmt
+		for _, p := range enclosingPath(fi.Decl.Body, sel) {
+			switch x := p.(type) {
+			case *ast.ForStmt:
+				anyLoop = true
+			case *ast.RangeStmt:
+				anyLoop = true
+				if t := ic.Info.TypeOf(x.X); t != nil && types.TypeString(t, nil) == "[]*github.com/traefik/yaegi/interp.node" {
+					loop = x
+				}
+			}
+		}
+		if loop == nil {
+			continue // appended outside the scan: each scan selects one variable
+		}
+		var head, done, start *cfg.Block
+		for _, b := range g.Blocks {
+			if b.Stmt == loop {
+				switch b.Kind {
+				case cfg.KindRangeLoop, cfg.KindForLoop:
+					head = b
+				case cfg.KindRangeDone, cfg.KindForDone:
+					done = b
+				}
+			}
+			for _, n := range b.Nodes {
+				if n == ast.Node(sel) {
+					start = b
+				}
+			}
+		}
+		if head == nil || done == nil || start == nil {
+			r.Errorf("R15.6: loop blocks not located in the flow graph of genGlobalVarDecl")
+			return
+		}
+		// reach head from start without passing through done (leaving the loop)
+		seen := map[*cfg.Block]bool{done: true}
+		stack := append([]*cfg.Block(nil), start.Succs...)
+		for len(stack) > 0 {
+			b := stack[len(stack)-1]
+			stack = stack[:len(stack)-1]
+			if seen[b] {
+				continue
+			}
+			seen[b] = true
+			if b == head {
+				bad = append(bad, "the variable appended at "+ic.pos(sel.Pos())+" is followed by the rest of the scan at "+ic.pos(loop.Pos()))
+				break
+			}
+			stack = append(stack, b.Succs...)
+		}
+	}
+	if !anyLoop {
+		r.Errorf("R15.6: the selection statement is not inside a loop")
+		return
+	}
+	r.Check(len(bad) == 0, "R15.6", "genGlobalVarDecl/earliest-ready-first", ic.pos(sels[0].Pos()), "after a variable is selected the scan over the pending variables is left (and restarted)",
+		"after a variable has been appended to the initialisation order the same scan continues with the variables declared after it ("+strings.Join(bad, "; ")+"): a variable declared earlier that has just become ready is initialised after them, e.g. var a = c; var b = ..; var c = ..; var d = .. runs b c d a where the Go specification requires b c a d")
+}
+
+// c15R7: the dependency collector recognises a package variable by its symbol: global flag
+// set and declaration node recorded. Every symbol of a package-level variable created by the
+// global pass must therefore carry both, whichever declaration form created it
+// (var x = .., var a, b = f(), x := ..): a variable whose symbol lacks them is invisible to
+// the ordering, and a variable that uses it is initialised before it.
+func c15R7(ic *IC, r *Report) {
+	fi := ic.fn(r, "Interpreter.gta")
+	if fi == nil {
+		return
+	}
+	symT, _ := ic.Pk.Types.Scope().Lookup("symbol").(*types.TypeName)
+	nodeFld, globalFld := ic.field("symbol", "node"), ic.field("symbol", "global")
+	if symT == nil || nodeFld == nil || globalFld == nil {
+		r.Errorf("anchor not resolved: type symbol, fields node/global")
+		return
+	}
+	constName := func(e ast.Expr) string {
+		if id, ok := unparen(e).(*ast.Ident); ok {
+			if c, ok := ic.Info.Uses[id].(*types.Const); ok {
+				return c.Name()
+			}
+		}
+		return ""
+	}
+	// var-symbol literals in a body: (has node, has global) per literal
+	type lit struct {
+		pos          token.Pos
+		node, global bool
+	}
+	litsIn := func(body ast.Node) []lit {
+		var out []lit
+		ast.Inspect(body, func(n ast.Node) bool {
+			cl, ok := n.(*ast.CompositeLit)
+			if !ok {
+				return true
+			}
+			if t := ic.Info.TypeOf(cl); t == nil || !types.Identical(t, symT.Type()) {
+				return true
+			}
+			l := lit{pos: cl.Pos()}
+			isVar := false
+			for _, e := range cl.Elts {
+				if kv, ok := e.(*ast.KeyValueExpr); ok {
+					switch types.ExprString(kv.Key) {
+					case "kind":
+						isVar = constName(kv.Value) == "varSym"
+					case "node":
+						l.node = true
+					case "global":
+						l.global = true
+					}
+				}
+			}
+			if isVar {
+				out = append(out, l)
+			}
+			return true
+		})
+		return out
+	}
+	n := 0
+	ast.Inspect(fi.Decl.Body, func(nd ast.Node) bool {
+		cc, ok := nd.(*ast.CaseClause)
+		if !ok || len(cc.List) == 0 || constName(cc.List[0]) == "" {
+			return true
+		}
+		kindName := constName(cc.List[0])
+		var lits []lit
+		var via []string
+		for _, s := range cc.Body {
+			lits = append(lits, litsIn(s)...)
+			ast.Inspect(s, func(m ast.Node) bool {
+				if c, ok := m.(*ast.CallExpr); ok {
+					if f, ok := calleeOf(ic.Info, c).(*types.Func); ok && f.Pkg() == ic.Pk.Types {
+						// helpers only (plain functions); the recursive compilation of sub-expressions
+						// through (*Interpreter).cfg creates local symbols, not package variables
+						if d := ic.G.Funcs[f]; d != nil && d.Decl.Body != nil && d != fi && d.Decl.Recv == nil {
+							if ls := litsIn(d.Decl.Body); len(ls) > 0 {
+								lits = append(lits, ls...)
+								via = append(via, f.Name())
+							}
+						}
+					}
+				}
+				return true
+			})
+		}
+		if len(lits) == 0 {
+			return true
+		}
+		n++
+		// completion in the clause: assignments of .node and .global
+		setsNode, setsGlobal := false, false
+		for _, s := range cc.Body {
+			ast.Inspect(s, func(m ast.Node) bool {
+				if as, ok := m.(*ast.AssignStmt); ok {
+					for _, l := range as.Lhs {
+						switch selField(ic.Info, l) {
+						case nodeFld:
+							setsNode = true
+						case globalFld:
+							setsGlobal = true
+						}
+					}
+				}
+				return true
+			})
+		}
+		var bad []string
+		for _, l := range lits {
+			if (!l.node && !setsNode) || (!l.global && !setsGlobal) {
+				what := []string{}
+				if !l.node && !setsNode {
+					what = append(what, "declaration node")
+				}
+				if !l.global && !setsGlobal {
+					what = append(what, "global flag")
+				}
+				bad = append(bad, "symbol created at "+ic.pos(l.pos)+" has no "+strings.Join(what, " and no "))
+			}
+		}
+		viaTxt := ""
+		if len(via) > 0 {
+			viaTxt = " (through " + strings.Join(dedupStr(via), ", ") + ")"
+		}
+		r.Check(len(bad) == 0, "R15.7", "gta/case:"+kindName+"/var-symbol-tracked", ic.pos(cc.Pos()), "the variable symbols created for this declaration form"+viaTxt+" carry the declaration node and the global flag",
+			"the "+kindName+" case of gta creates variable symbols"+viaTxt+" that the dependency collector cannot see: "+strings.Join(bad, "; ")+": a package variable declared in this form (var a, b = f()) is not a dependency of the variables that use it, which are then initialised first")
+		return true
+	})
+	if n < 2 {
+		r.Errorf("R15.7: %d declaration forms creating variable symbols found in gta (defineStmt, defineXStmt and valueSpec expected)", n)
 	}
 }
